@@ -248,7 +248,8 @@ pub fn cmp_slice(imp: &[Float], r: &[Du], part: Part) -> Result<(), String> {
         let ok = if d.ex && bound < exact_limit() {
             a == want
         } else {
-            (a - want).abs() <= tau() * bound.max(want.abs()) + 1e-300
+            // absolute floor: results below the smallest normal number may be flushed
+            (a - want).abs() <= tau() * bound.max(want.abs()) + if IS_F32 { 1.0e-30 } else { 1.0e-300 }
         };
         if !ok || !a.is_finite() {
             return Err(format!(
